@@ -1,9 +1,11 @@
 package props
 
 import (
+	"bytes"
 	"context"
 	"encoding/hex"
 	"fmt"
+	"sort"
 	"strconv"
 	"strings"
 	"sync"
@@ -124,7 +126,7 @@ func (in c07Input) String() string {
 	return fmt.Sprintf("start=%s rcpt=%s amt=%s denom=%s hookgas=%s outer=%s payload=%s", in.Start, in.Rcpt, in.Amount, in.Denom, in.HookGas, in.OuterGas, in.Payload)
 }
 
-var c07Rcpts = []string{"existing", "fresh", "malformed", "empty", "other-prefix", "blocked-module", "opchild-module"}
+var c07Rcpts = []string{"existing", "fresh", "malformed", "empty", "blank", "other-prefix", "blocked-module", "opchild-module"}
 var c07Amounts = []string{"0", "1", "18446744073709551615"}
 var c07Payloads = []string{"none", "random-bytes", "truncated-tx", "bad-signature", "wrong-sequence", "unroutable-msg", "signed[ok]", "signed[ok,fail]", "signed[fail]", "signed[panic]", "signed[gas-exhaust]", "signed[ok,ok]", "executor-signed[finalize-this-very-sequence]", "unsigned[msg-with-unparseable-signer]", "unsigned[no-messages]"}
 
@@ -137,7 +139,9 @@ func c07Recipient(name string) string {
 	case "malformed":
 		return "cosmos1notanaddress"
 	case "empty":
-		return ""
+		return "" // L1 refuses to emit this one (see the L1-emittable family): L2 may refuse it too, atomically
+	case "blank":
+		return " "
 	case "other-prefix":
 		return "init1qypqxpq9qcrsszg2pvxq6rs0zqg3yyc5lzv7xu"
 	case "blocked-module":
@@ -300,6 +304,73 @@ func (cw *c07World) snap(ctx sdk.Context, rcpt sdk.AccAddress, denom string) c07
 	return s
 }
 
+func slicesCompact(a []string) []string {
+	var out []string
+	for i, x := range a {
+		if i == 0 || x != a[i-1] {
+			out = append(out, x)
+		}
+	}
+	return out
+}
+
+// c07ResidueClass names what a raw-store change left by a refunded deposit is; "" = allowed.
+func c07ResidueClass(cw *c07World, before, after sdk.Context, ch world.RawChange, rcpt sdk.AccAddress, denom string) string {
+	switch ch.Store {
+	case opchildtypes.StoreKey:
+		switch {
+		case bytes.Equal(ch.Key, opchildtypes.NextL1SequenceKey), bytes.Equal(ch.Key, opchildtypes.NextL2SequenceKey):
+			return ""
+		case bytes.HasPrefix(ch.Key, opchildtypes.DenomPairPrefix) && ch.Was == nil && strings.Contains(string(ch.Key), denom):
+			return "" // registered by the first deposit of the denom, before the outcome is known
+		}
+		return fmt.Sprintf("opchild key %x", ch.Key)
+	case banktypes.StoreKey:
+		if bytes.HasPrefix(ch.Key, banktypes.DenomMetadataPrefix) && ch.Was == nil && strings.Contains(string(ch.Key), denom) {
+			return ""
+		}
+		return fmt.Sprintf("bank key %x (%x -> %x)", ch.Key, ch.Was, ch.Now)
+	case authtypes.StoreKey:
+		// the hook signer's account: only its sequence (and first-use public key) may have moved
+		for _, hk := range []sdk.AccAddress{world.Addr("hooker"), world.Addr("executor")} {
+			if !bytes.Contains(ch.Key, hk) || ch.Was == nil || ch.Now == nil {
+				continue
+			}
+			ha, hb := cw.w.AK.GetAccount(before, hk), cw.w.AK.GetAccount(after, hk)
+			if err := hb.SetSequence(ha.GetSequence()); err != nil {
+				panic(err)
+			}
+			// the ante chain also records the signer's public key on first use; it can only ever be the
+			// one key the address commits to, so it is counted with the sequence
+			if ha.GetPubKey() == nil && hb.GetPubKey() != nil {
+				if err := ha.SetPubKey(hb.GetPubKey()); err != nil {
+					panic(err)
+				}
+			}
+			ba, _ := cw.w.Enc.Marshaler.MarshalInterface(ha)
+			bb, _ := cw.w.Enc.Marshaler.MarshalInterface(hb)
+			if bytes.Equal(ba, bb) {
+				return ""
+			}
+			return "auth: the hook signer's account changed beyond its sequence"
+		}
+		if rcpt != nil && bytes.Contains(ch.Key, rcpt) && ch.Was == nil {
+			return "auth: an account record for the recipient, created by the transfer that was undone"
+		}
+		if mod := authtypes.NewModuleAddress(opchildtypes.ModuleName); bytes.Contains(ch.Key, mod) && ch.Was == nil {
+			return "auth: the opchild module account, created by the mint that was undone"
+		}
+		if bytes.HasPrefix(ch.Key, []byte("accountNumber")) && ch.Was == nil {
+			return "auth: an account-number index entry"
+		}
+		if bytes.Equal(ch.Key, authtypes.GlobalAccountNumberKey.Bytes()) {
+			return "auth: the global account number counter"
+		}
+		return fmt.Sprintf("auth key %x", ch.Key)
+	}
+	return fmt.Sprintf("%s key %x", ch.Store, ch.Key)
+}
+
 var c07Contained = map[string]bool{"opchild.bank.MintCoins": true, "opchild.bank.SendCoinsFromModuleToAccount": true}
 
 func c07IsContained(site string) bool {
@@ -364,6 +435,10 @@ func (cw *c07World) exec(in c07Input, plan map[int]string, wantPrefix []string) 
 	after := cw.snap(ctx, rcpt, denom)
 	if !res.OK() {
 		obs.outcome = "handler-error"
+		if len(obs.hit) == 0 && in.Rcpt == "empty" && cw.w.Digest(ctx) == d0 {
+			obs.outcome = "refused-what-l1-cannot-emit"
+			return obs, nil
+		}
 		if len(obs.hit) == 0 {
 			return obs, tagged(viol("finalization-at-expected-sequence-succeeds", "%s: handler failed: %v", label, res.Err), "payload", in.Payload, "rcpt", in.Rcpt)
 		}
@@ -424,6 +499,24 @@ func (cw *c07World) exec(in c07Input, plan map[int]string, wantPrefix []string) 
 			return obs, viol("refund-withdrawal-back-to-l1-sender", "%s: NextL2Sequence %d -> %d", label, before.nextL2, after.nextL2)
 		}
 		obs.outcome = "refunded"
+		// whole-state residue: apart from the two sequences, the denom registration made before the
+		// outcome is known, and the hook signer's account sequence, a refunded deposit leaves the raw
+		// stores exactly as they were
+		bctx, _ := cw.starts[in.Start].CacheContext()
+		if err := cw.w.K.SetParams(bctx, p); err != nil {
+			panic(err)
+		}
+		var left []string
+		for _, ch := range world.RawDiff(bctx, ctx, cw.w.StoreKeys) {
+			if c := c07ResidueClass(cw, bctx, ctx, ch, rcpt, denom); c != "" {
+				left = append(left, c)
+			}
+		}
+		if len(left) > 0 {
+			sort.Strings(left)
+			left = slicesCompact(left)
+			return obs, tagged(viol("refund-leaves-nothing-behind", "%s: refunded, but the state keeps: %s", label, strings.Join(left, "; ")), "residue", strings.Join(left, "; "))
+		}
 	default:
 		return obs, viol("credited-or-refunded-exactly", "%s: %d refund withdrawals recorded", label, len(wevs))
 	}
